@@ -133,3 +133,45 @@ Theorem C10_accepted_reads_back :
       Forall2 (reads_back rs0) is os.
 Proof. exact accepted_reads_back. Qed.
 Print Assumptions C10_accepted_reads_back.
+
+(** The converse of [C10_rejects] ([Proofs/WapiAccept.v]).  One call: from a state with the
+    invariant, a call that compiles in the borrow state ([bnext]) and is acceptable -
+    [representable_call] plus the two conditions it does not state: the capacity check's
+    margin ([packet_margin]: one more byte per record and 500 bytes on top of "one point fits a
+    packet") for [add_pointcloud], and a non-empty file GUID for [new] ([serialize_root] refuses
+    an empty one) - returns Ok (CrOk / CrBlob) and keeps the invariant.  [gen_xml] is any
+    generator that succeeds on a non-empty GUID ([gen_root] does: Proofs/XgTotal.v). *)
+From E57 Require Import Proofs.WapiAccept Proofs.WapiAcceptWitness.
+
+Theorem C10_accepts_step : forall (gen_xml : file_meta -> res (list N)) (lib_version : xstring),
+  (forall m, rt_guid (fm_root m) <> [] -> exists xml, gen_xml m = Ok xml) ->
+  forall st l c k', ws_inv st l -> guid_inv st -> call_wf c ->
+  bnext (bstate_of st) c = Some k' -> acceptable_call st c ->
+  exists l' st' r, wrun_spec (wapi_step gen_xml lib_version st c) l = (l', Ok (st', r)) /\ res_ok r /\
+    ws_inv st' l' /\ ls_le l l' /\ guid_inv st' /\ bstate_of st' = k'.
+Proof. exact accept_step. Qed.
+Print Assumptions C10_accepts_step.
+
+(** The whole writer on the empty fault-free paged device: a program that compiles
+    ([borrow_ok]) in which every call is acceptable in the state it is issued in
+    ([acceptable_calls]: the state of the machine after the calls before it) - every call
+    returns Ok and the flush of [Drop] succeeds.  No size hypothesis: neither the crate nor the
+    model bounds offsets while writing (that they fit u64 is a hypothesis of the read-back). *)
+Theorem C10_api_accepts : forall (fmt64 fmt32 : N -> xstring) (version : xstring) calls,
+  Forall call_wf calls -> borrow_ok BClosed calls ->
+  acceptable_calls (gen_xml_full fmt64 fmt32) (lib_version_text version) ws_init ls_init calls ->
+  exists s st rs,
+    wrun (writer_run fmt64 fmt32 version calls) pw0 = (s, Ok (st, rs)) /\
+    Forall res_ok rs /\ length rs = length calls /\ snd (pw_flush s) = Ok tt.
+Proof. exact api_accepts. Qed.
+Print Assumptions C10_api_accepts.
+
+(** [representable_call] alone is not enough: a prototype of X, Y, Z and 5947 extension
+    attributes, all doubles, follows every documented rule and one point fits a packet
+    (59506 + 3 <= 65535 bytes), but the capacity check refuses it. *)
+Theorem C10_fits_packet_not_enough : forall gen_xml lib_version guid l,
+  representable_call w_state (AddPointcloud guid w_proto) /\
+  call_wf (AddPointcloud guid w_proto) /\
+  wrun_spec (wapi_step gen_xml lib_version w_state (AddPointcloud guid w_proto)) l = (l, Ok (w_state, CrErr EInvalid)).
+Proof. exact fits_packet_not_enough. Qed.
+Print Assumptions C10_fits_packet_not_enough.
